@@ -389,12 +389,21 @@ func updateStatusConditionsFromOwnedObject(
 			continue
 		}
 
+		condType, typeOk := condMap["type"].(string)
+		condStatus, statusOk := condMap["status"].(string)
+		if !typeOk || !statusOk {
+			return apimachineryerrors.NewBadRequest("malformed condition")
+		}
+		// reason and message are optional in many APIs.
+		condReason, _ := condMap["reason"].(string)
+		condMessage, _ := condMap["message"].(string)
+
 		newCond := metav1.Condition{
-			Type:               condMap["type"].(string),
-			Status:             metav1.ConditionStatus(condMap["status"].(string)),
+			Type:               condType,
+			Status:             metav1.ConditionStatus(condStatus),
 			ObservedGeneration: objectTemplate.ClientObject().GetGeneration(),
-			Reason:             condMap["reason"].(string),
-			Message:            condMap["message"].(string),
+			Reason:             condReason,
+			Message:            condMessage,
 		}
 		meta.SetStatusCondition(objectTemplate.GetConditions(), newCond)
 	}
